@@ -47,6 +47,19 @@ func parseProtectedHeaders(encoded string) (*jwsProtectedHeader, error) {
 	for _, headerKey := range headerKeys {
 		delete(protected.ExtendedAttributes, headerKey)
 	}
+
+	// encoding/json matches the fields of jwsProtectedHeader ignoring letter
+	// case, whereas JWT verification and the extended attributes use exact
+	// keys. A key that differs from a defined header only in letter case
+	// would be read as that header above and as another header elsewhere.
+	for key := range protected.ExtendedAttributes {
+		for _, headerKey := range headerKeys {
+			if strings.EqualFold(key, headerKey) {
+				return nil, &signature.InvalidSignatureError{
+					Msg: fmt.Sprintf("jws envelope protected header %q differs from %q only in letter case", key, headerKey)}
+			}
+		}
+	}
 	return &protected, nil
 }
 
